@@ -5,7 +5,9 @@ Input  (all under <repo_src>/pygaps/characterisation/):
   area_lang.py  langmuir_transform, langmuir_parameters, simple_lang
   t_plots.py    t_plot_parameters : the lines `adsorbed_volume = ...`, `area = ...`, the slope test `... < 3`
   alphas_plots.py  alpha_s_plot_parameters : same three; alpha_s_raw : `alpha_curve = reference_loading / alpha_s_point`
-  dr_da_plots.py   log_v_adj, log_p_exp; da_plot_raw : `microp_volume = ...`, `potential = ...`
+  dr_da_plots.py   log_v_adj, log_p_exp; da_plot_raw : `microp_volume = ...`, `potential = ...`; the exponent search: the nested
+                   dr_fit (linregress of log_p_exp(pressure, exp) against logv, objective = its last `return`) and the call
+                   optimize.minimize_scalar(dr_fit, bounds=[lo, hi], method='bounded') -> da_search_objective, da_search_lower/upper
   models_thickness.py  thickness_halsey, thickness_harkins_jura, thickness_zero, convert_to_thickness
   models_kelvin.py     get_meniscus_geometry, kelvin_radius, kelvin_radius_kjs  (if-chains on strings, raise)
   isosteric_enth.py    isosteric_enthalpy_raw : the argument of `iso_enth.append(...)`
@@ -157,6 +159,8 @@ def expr(node, cx, free_ok=False):
         if d in ('numpy.zeros_like', 'np.zeros_like') and len(args) == 1:
             expr(args[0], cx, free_ok)
             return coq_q(Fraction(0))
+        if d == 'abs' and len(args) == 1:
+            return '(nabs %s)' % expr(args[0], cx, free_ok)
         if d == 'max' and len(args) == 1 and isinstance(args[0], ast.Name):
             return cx.add_param('max_' + args[0].id)
         if isinstance(node.func, ast.Attribute) and node.func.attr == 'item' and not args:
@@ -360,6 +364,61 @@ def extract(tree, fn, func, defname, params, chain=(), result_assign=None, resul
     return emit_def(defname, cx, body, rty)
 
 
+def da_search(tree, fn):
+    """the exponent search of da_plot_raw, fail-closed on its exact shape:
+         def dr_fit(exp, ret=False):
+             slope, intercept, corr_coef, p_val, stderr = stats.linregress(log_p_exp(pressure, exp), logv)
+             if ret: return slope, intercept, corr_coef
+             return <objective in stderr, slope>
+         if exp is None: res = optimize.minimize_scalar(dr_fit, bounds=[lo, hi], method='bounded'); ...; exp = res.x"""
+    f = find_func(tree, 'da_plot_raw', fn)
+    where = fn + ':da_plot_raw'
+    inner = [n for n in f.body if isinstance(n, ast.FunctionDef) and n.name == 'dr_fit']
+    if len(inner) != 1:
+        raise Unsupported('%s: nested function dr_fit not found' % where)
+    g = inner[0]
+    if [a.arg for a in g.args.args] != ['exp', 'ret']:
+        bad(g, 'dr_fit parameters', where)
+    body = strip_doc(g.body)
+    if len(body) != 3:
+        bad(g, 'dr_fit body must be: linregress assignment, `if ret: return ...`, return objective', where)
+    a, i, r = body
+    ok = isinstance(a, ast.Assign) and len(a.targets) == 1 and isinstance(a.targets[0], ast.Tuple) \
+        and [getattr(e, 'id', None) for e in a.targets[0].elts] == ['slope', 'intercept', 'corr_coef', 'p_val', 'stderr'] \
+        and isinstance(a.value, ast.Call) and dotted(a.value.func) == 'stats.linregress' and len(a.value.args) == 2 and not a.value.keywords \
+        and isinstance(a.value.args[0], ast.Call) and dotted(a.value.args[0].func) == 'log_p_exp' \
+        and [getattr(e, 'id', None) for e in a.value.args[0].args] == ['pressure', 'exp'] and getattr(a.value.args[1], 'id', None) == 'logv'
+    if not ok:
+        bad(a, 'dr_fit: expected slope, intercept, corr_coef, p_val, stderr = stats.linregress(log_p_exp(pressure, exp), logv)', where)
+    ok = isinstance(i, ast.If) and getattr(i.test, 'id', None) == 'ret' and not i.orelse and len(i.body) == 1 and isinstance(i.body[0], ast.Return) \
+        and isinstance(i.body[0].value, ast.Tuple) and [getattr(e, 'id', None) for e in i.body[0].value.elts] == ['slope', 'intercept', 'corr_coef']
+    if not ok:
+        bad(i, 'dr_fit: expected `if ret: return slope, intercept, corr_coef`', where)
+    if not isinstance(r, ast.Return) or r.value is None:
+        bad(r, 'dr_fit: expected a final return of the objective', where)
+    cx = Ctx(where, ['stderr', 'slope'])
+    obj = expr(r.value, cx)
+    # the search call and the use of its result
+    calls = [st for st in all_stmts(f) if isinstance(st, ast.Assign) and isinstance(st.value, ast.Call) and dotted(st.value.func) == 'optimize.minimize_scalar']
+    if len(calls) != 1:
+        raise Unsupported('%s: exactly one optimize.minimize_scalar call expected' % where)
+    c = calls[0].value
+    kw = {k.arg: k.value for k in c.keywords}
+    ok = len(c.args) == 1 and getattr(c.args[0], 'id', None) == 'dr_fit' and set(kw) == {'bounds', 'method'} \
+        and isinstance(kw['method'], ast.Constant) and kw['method'].value == 'bounded' \
+        and isinstance(kw['bounds'], (ast.List, ast.Tuple)) and len(kw['bounds'].elts) == 2 and all(try_const(e) is not None for e in kw['bounds'].elts)
+    if not ok:
+        bad(calls[0], "expected optimize.minimize_scalar(dr_fit, bounds=[lo, hi], method='bounded')", where)
+    res_name = calls[0].targets[0].id if isinstance(calls[0].targets[0], ast.Name) else None
+    uses = [st for st in all_stmts(f) if isinstance(st, ast.Assign) and len(st.targets) == 1 and getattr(st.targets[0], 'id', None) == 'exp'
+            and dotted(st.value) == '%s.x' % res_name]
+    if len(uses) != 1:
+        raise Unsupported('%s: `exp = %s.x` not found' % (where, res_name))
+    lo, hi = (try_const(e) for e in kw['bounds'].elts)
+    return emit_def('da_search_objective', cx, obj, 'N') + '\n' + \
+        '  Definition da_search_lower : N :=\n    %s.\n\n  Definition da_search_upper : N :=\n    %s.\n' % (coq_q(lo), coq_q(hi))
+
+
 HEADER = """(* GENERATED by tools/py2v_charact.py from pygaps/characterisation/*.py - do not edit.
    Scalar formulas of the characterisation methods over a carrier N : Num and the operations
    nsqrt nln nexp npow (numpy.sqrt / log / exp / `**` with a non-integer exponent). *)
@@ -370,6 +429,7 @@ Open Scope string_scope.
 Section CharactGen.
   Variable N : Num.
   Variables (nsqrt nln nexp : N -> N) (npow : N -> N -> N).
+  Variable nabs : N -> N.
 
 """
 
@@ -402,7 +462,8 @@ def main(src, out):
     parts += [whole(t, 'dr_da_plots.py', 'log_v_adj'),
               whole(t, 'dr_da_plots.py', 'log_p_exp'),
               extract(t, 'dr_da_plots.py', 'da_plot_raw', 'da_microp_volume', ['intercept'], result_assign='microp_volume'),
-              extract(t, 'dr_da_plots.py', 'da_plot_raw', 'da_potential', ['iso_temp', 'slope', 'exp'], result_assign='potential')]
+              extract(t, 'dr_da_plots.py', 'da_plot_raw', 'da_potential', ['iso_temp', 'slope', 'exp'], result_assign='potential'),
+              da_search(t, 'dr_da_plots.py')]
     t = load('models_thickness.py')
     parts += [whole(t, 'models_thickness.py', 'thickness_halsey'),
               whole(t, 'models_thickness.py', 'thickness_harkins_jura'),
